@@ -69,6 +69,9 @@ def gen_asm(rng: random.Random, n_ops: Optional[int] = None) -> dict:
     tolerance at shared corners, some cells displaced by 1e-5 (= 100 TOL: near, but a different point), some 'wild'
     operations made of arbitrary lattice nodes; patches on random sides; 0..3 merged pairs."""
     n = n_ops or rng.randint(1, 7)
+    # 15%: a geo-referenced scene (UTM-like coordinates): neighbouring nodes are 1 apart at |x| ~ 5e5, |y| ~ 4.2e6,
+    # i.e. much closer than 1e-5 * |coordinate| (a relative tolerance would merge them), still >= 1e7 TOL apart
+    origin = [Fraction(500000), Fraction(4200000), Fraction(100)] if rng.random() < 0.15 else [Fraction(0)] * 3
     dims = rng.choice([(2, 1, 1), (2, 2, 1), (3, 1, 1), (2, 2, 2), (3, 2, 1)])
     cells = [(i, j, k) for i in range(dims[0]) for j in range(dims[1]) for k in range(dims[2])]
     rng.shuffle(cells)
@@ -86,7 +89,8 @@ def gen_asm(rng: random.Random, n_ops: Optional[int] = None) -> dict:
         shift = [Fraction(0)] * 3
         if rng.random() < 0.15:
             shift[rng.randrange(3)] = Fraction(rng.choice([-1, 1]), 10**5)
-        pts = [[c + s + j for c, s, j in zip(p, shift, _jit(rng))] for p in pts]
+        # the float64 nearest to origin + offset is what the implementation sees; keep it exactly
+        pts = [[Fraction(float(c + s + j + o)) for c, s, j, o in zip(p, shift, _jit(rng), origin)] for p in pts]
         patches: Dict[str, str] = {}
         for side in SIDES:
             if rng.random() < 0.45:
@@ -96,7 +100,54 @@ def gen_asm(rng: random.Random, n_ops: Optional[int] = None) -> dict:
     for _ in range(rng.choice([0, 1, 1, 2, 2, 3])):
         m, s = rng.sample(names, 2)
         merged.append([m, s])
-    return {"kind": "asm", "ops": ops, "merged": merged}
+    return {"kind": "asm", "ops": ops, "merged": merged, "far": origin[0] != 0}
+
+
+def gen_hist(rng: random.Random) -> dict:
+    """A history of Mesh calls: 2..4 cells in a row whose interfaces carry master/slave names, operations added
+    and pairs merged at different times, the slave set queried in between, clear() and re-assembly."""
+    n = rng.randint(2, 4)
+    far = rng.random() < 0.15
+    origin = [Fraction(500000), Fraction(4200000), Fraction(100)] if far else [Fraction(0)] * 3
+    ops = []
+    pairs = []
+    for o in range(n):
+        rot = rng.choice(ROTS) if rng.random() < 0.25 else list(range(8))
+        pts = [[Fraction(float(Fraction((o if a == 0 else 0) + CUBE[rot[c]][a]) + origin[a])) for a in range(3)] for c in range(8)]
+        patches: Dict[str, str] = {}
+        if o > 0 and rng.random() < 0.8:
+            patches["left"] = f"s{o}"
+        if o < n - 1 and rng.random() < 0.8:
+            patches["right"] = f"m{o + 1}"
+        for side in ("top", "bottom", "front", "back"):
+            if rng.random() < 0.25:
+                patches[side] = rng.choice(["pa", "pb", f"s{rng.randint(1, n)}"])
+        ops.append({"points": [[str(c) for c in p] for p in pts], "patches": patches})
+    for i in range(1, n):
+        if rng.random() < 0.85:
+            pairs.append([f"m{i}", f"s{i}"])
+    if rng.random() < 0.3:
+        pairs.append(["pa", "pb"])
+    rng.shuffle(pairs)
+    # distribute adds and merges over 2..3 phases; every phase ends with assemble
+    phases = rng.randint(2, 3)
+    steps: List[list] = []
+    add_phase = [0 if rng.random() < 0.7 else rng.randrange(phases) for _ in ops]
+    add_phase[0] = 0
+    merge_phase = [rng.randrange(phases) for _ in pairs]
+    for ph in range(phases):
+        if ph > 0:
+            if rng.random() < 0.5:
+                steps.append(["query", rng.choice(["s1", "pb", "m1"])])
+            steps.append(["clear"])
+        todo = [["add", i] for i, a in enumerate(add_phase) if a == ph] + [["merge", *pairs[i]] for i, m in enumerate(merge_phase) if m == ph]
+        if ph > 0:
+            rng.shuffle(todo)
+        steps += todo
+        if rng.random() < 0.3:
+            steps.append(["query", rng.choice(["s1", "s2", "pa"])])
+        steps.append(["assemble"])
+    return {"kind": "hist", "ops": ops, "steps": steps, "far": far}
 
 
 def gen_asm_dense(rng: random.Random) -> dict:
@@ -146,6 +197,9 @@ class C05(core.Check):
     props_module = "CBV.Props.C05"
     workers = 1
     rule = (
+        "hist: histories of Mesh calls on 2..4 cells in a row (operations added and pairs merged in 2..3 phases, is_slave "
+        "queries, clear() and re-assembly; every assembly compared and judged with the pairs declared so far); 15% of the asm "
+        "and hist cases geo-referenced (origin 5e5 / 4.2e6 / 100, nodes 1 apart). "
         "asm: 1..7 operations on cells of a small lattice (random one of the 24 corner renumberings; 12% 'wild' "
         "operations on 8 arbitrary lattice nodes), shared corners jittered inside the tolerance (cluster diameter "
         "< 0.7 TOL), 15% of the operations displaced by 1e-5 = 100 TOL (near but distinct), patch names from a pool on "
@@ -171,6 +225,7 @@ class C05(core.Check):
         n = 260 if tier == "quick" else 2500
         cases: List[dict] = [gen_asm(rng) for _ in range(n)]
         cases += [gen_asm_dense(rng) for _ in range(n // 5)]
+        cases += [gen_hist(rng) for _ in range(n // 4)]
         cases += [gen_adds(rng) for _ in range(n // 3)]
         for what in ["cyl-cyl", "cyl-ring", "box-grid", "hemi", "cyl-merged"]:
             for order in (False, True):
@@ -251,6 +306,8 @@ class C05(core.Check):
                 "D": [[d.vertex.index, list(d.patches)] for d in vl.duplicated],
             }
 
+        if case["kind"] == "hist":
+            return self._run_hist(case)
         mesh = cb.Mesh()
         if case["kind"] == "shape":
             ents, merged = self._build_shape(case)
@@ -293,6 +350,40 @@ class C05(core.Check):
             "text": mesh.vertex_list.description,
         }
 
+    def _run_hist(self, case: dict) -> Any:
+        import classy_blocks as cb
+
+        mesh = cb.Mesh()
+        snaps = []
+        with warnings.catch_warnings():
+            warnings.simplefilter("ignore")
+            for st in case["steps"]:
+                if st[0] == "add":
+                    o = case["ops"][st[1]]
+                    pts = [[float(Fraction(x)) for x in p] for p in o["points"]]
+                    op = cb.Loft(cb.Face(pts[:4]), cb.Face(pts[4:]))
+                    for side, name in o["patches"].items():
+                        op.set_patch(side, name)
+                    mesh.add(op)
+                elif st[0] == "merge":
+                    mesh.merge_patches(st[1], st[2])
+                elif st[0] == "query":
+                    mesh.patch_list.is_slave(st[1])
+                elif st[0] == "clear":
+                    mesh.clear()
+                else:
+                    mesh.assemble()
+                    snaps.append(
+                        {
+                            "B": [list(b.indexes) for b in mesh.blocks],
+                            "I": [v.index for v in mesh.vertex_list.vertices],
+                            "pos": [[_fr(float(x)) for x in v.position] for v in mesh.vertex_list.vertices],
+                            "D": [[d.vertex.index, list(d.patches)] for d in mesh.vertex_list.duplicated],
+                            "written_pairs": [list(p) for p in mesh.patch_list.merged],
+                        }
+                    )
+        return {"snaps": snaps}
+
     # ------------------------------------------------------------------ model
     @staticmethod
     def _op_req(o: dict) -> str:
@@ -305,6 +396,17 @@ class C05(core.Check):
     def requests(self, case: dict, impl: Any) -> List[str]:
         if case["kind"] == "protocol":
             return [case["req"]]
+        if case["kind"] == "hist":
+            words = []
+            for st in case["steps"]:
+                if st[0] == "add":
+                    o = case["ops"][st[1]]
+                    words.append("A:" + self._op_req({"points": [[_fr(Fraction(x)) for x in p] for p in o["points"]], "patches": o["patches"]}))
+                elif st[0] == "merge":
+                    words.append(f"M:{st[1]},{st[2]}")
+                else:
+                    words.append({"query": "Q", "clear": "C", "assemble": "X"}[st[0]])
+            return ["c05.hist " + " ".join(words)]
         if case["kind"] == "adds":
             calls = []
             for c in case["calls"]:
@@ -318,6 +420,21 @@ class C05(core.Check):
         ans = model[0]
         if case["kind"] == "protocol":
             return None if ans == "bad-op" else f"ill-formed request {case['req']!r} answered {ans[:80]!r}"
+        if case["kind"] == "hist":
+            if not ans.startswith("H "):
+                return "unparsable model answer " + ans[:200]
+            parts = ans[2:].split(" | ")
+            if len(parts) != len(impl["snaps"]):
+                return f"{len(impl['snaps'])} assemblies, model reports {len(parts)}"
+            for k, (part, snap) in enumerate(zip(parts, impl["snaps"])):
+                why = self._compare_one("asm", snap, part)
+                if why:
+                    return f"assembly {k} of the history: {why}"
+            return None
+        return self._compare_one(case["kind"], impl, ans)
+
+    @staticmethod
+    def _compare_one(kind: str, impl: Any, ans: str) -> Optional[str]:
         m = re.fullmatch(r"(?:(B|R)=(\S*) )n=(\d+) I=(\S*) D=(\S*)", ans)
         if not m:
             return "unparsable model answer " + ans[:200]
@@ -328,7 +445,7 @@ class C05(core.Check):
             if e:
                 i, _, names = e.partition(":")
                 dup.append([int(i), [x for x in names.split(",") if x]])
-        if case["kind"] == "adds":
+        if kind == "adds":
             res = json.loads(m.group(2))
             if res != impl["R"]:
                 return f"vertices handed back: implementation {impl['R']}, model {res}"
@@ -347,6 +464,29 @@ class C05(core.Check):
         out: List[dict] = []
         if case["kind"] == "protocol":
             return out
+        if case["kind"] == "hist":
+            added: List[int] = []
+            pairs: List[List[str]] = []
+            k = 0
+            for st in case["steps"]:
+                if st[0] == "add":
+                    added.append(st[1])
+                elif st[0] == "merge":
+                    pairs.append([st[1], st[2]])
+                elif st[0] == "assemble":
+                    snap = impl["snaps"][k]
+                    k += 1
+                    decl = [{"points": [[_fr(Fraction(x)) for x in p] for p in case["ops"][i]["points"]], "patches": case["ops"][i]["patches"]} for i in added]
+                    found = self._oracle_asm({"decl": decl, "merged": pairs, "B": snap["B"], "I": snap["I"], "pos": snap["pos"], "text": None})
+                    for v in found:
+                        v["site"] = v["site"] + ":after-reassembly" if k > 1 else v["site"]
+                        v["what"] = f"assembly {k} of the history (pairs merged so far {pairs}): " + v["what"]
+                    out += found
+                    if snap["written_pairs"] != pairs:
+                        out.append({"site": "PatchList.merge:pairs-lost", "what": f"declared {pairs}, kept {snap['written_pairs']}"})
+                    if out:
+                        return out
+            return out
         if case["kind"] == "adds":
             if any(c["slaves"] is None for c in case["calls"]):
                 return out  # the None branch is not reachable from Mesh; covered by the correspondence only
@@ -356,6 +496,10 @@ class C05(core.Check):
                 # sets, so the multiset is a set there)
                 keys.append(([Fraction(x) for x in c["point"]], tuple(sorted(c["slaves"]))))
             return self._check_partition(keys, impl["R"], "VertexList.add")
+        return self._oracle_asm(impl)
+
+    def _oracle_asm(self, impl: Any) -> List[dict]:
+        out: List[dict] = []
         # ---- assembled mesh
         slaves = {s for _, s in impl["merged"]}
         keys = []
@@ -385,6 +529,8 @@ class C05(core.Check):
                 out.append({"site": "VertexList.add:vertex-away-from-corner", "what": f"corner at {list(map(float, p))} got vertex {v} at {list(map(float, pos[v]))}"})
                 break
         # the written section
+        if impl["text"] is None:
+            return out
         lines = [l for l in impl["text"].split("\n")]
         if lines[:2] != ["vertices", "("] or lines[-3:] != [");", "", ""] or len(lines) != n + 5:
             out.append({"site": "VertexList.description:frame", "what": repr(impl["text"][:80])})
@@ -424,7 +570,7 @@ class C05(core.Check):
     def nontrivial_key(self, case, impl):
         if not isinstance(impl, dict) or case["kind"] == "protocol":
             return None
-        if case["kind"] == "adds":
+        if case["kind"] in ("adds", "hist"):
             return json.dumps(case, sort_keys=True)
         flat = [i for b in impl.get("B", []) for i in b]
         shared = len(flat) != len(set(flat))
@@ -433,10 +579,15 @@ class C05(core.Check):
         return None
 
     def classify(self, case, impl):
+        if case["kind"] == "hist":
+            n_merge_late = sum(1 for i, st in enumerate(case["steps"]) if st[0] == "merge" and any(x[0] == "assemble" for x in case["steps"][:i]))
+            return f"hist:assemblies={sum(1 for st in case['steps'] if st[0] == 'assemble')}:late-merges={min(n_merge_late, 2)}" + (":far" if case.get("far") else "")
         if case["kind"] != "asm":
             return case["kind"] + (":" + case["what"] if "what" in case else "")
         nd = sum(1 for d in impl.get("D", []) if d[1])
         multi = sum(1 for d in impl.get("D", []) if len(d[1]) > 1)
+        if case.get("far"):
+            return f"asm:far-origin:merged={len(case['merged'])}"
         return f"asm:ops={len(case['ops'])}:merged={len(case['merged'])}:slavecopies={'0' if nd == 0 else '1+'}:multi={'y' if multi else 'n'}"
 
 
